@@ -244,6 +244,19 @@ CHECKS = {
                 "+-1 s, none after cancellation or expiry; activeCovSubscriptions read over the wire must equal the live set.",
         "note": "two tolerances (per-object vs per-subscriber 'last reported value'; coalescing of writes within one instant) keep the oracle within the statement",
     },
+    "C03": {
+        "level": "exploration",
+        "design_ref": "DESIGN.md 3 C03",
+        "technique": "runtime monitor: schema-driven generator over all registered PDUs and constructed types; self-consistency oracle through the production encode/decode path, independent TLV well-formedness of every stream, Annex-F vectors derived with the independent reference codec",
+        "text": "For each of the 58 registered service PDUs and ~170 Sequence/Choice types every presence pattern of optional "
+                "elements (all 2^k for k<=6), every choice alternative, list lengths 0..3 and nesting to depth 4+ are "
+                "generated with leaves from the C01 boundary pools, encoded through service class -> typed PDU -> APDU "
+                "-> octets, parsed with the independent TLV parser (canonical, balanced), decoded through APDU.decode -> "
+                "registry -> class.decode, compared structurally (absent optional != empty list) and re-encoded; an "
+                "appended tag must be rejected.  Twenty worked examples in the style of Annex F are checked in both "
+                "directions against octets derived from the worded values with the independent reference codec.",
+        "note": "structural validity only; Annex-F hex transcribed from memory is used only where it agrees with the derivation (17 of 17 given)",
+    },
 }
 
 NOT_APPLICABLE = {pid: _PENDING for pid in ("C%02d" % i for i in range(1, 21)) if pid not in CHECKS}
